@@ -260,9 +260,10 @@ def acc_event(ev, max_ch=12, contrib=None):
     d = contrib.get(ev) if contrib else alone_contribution(ev)
     dpos = {float(f): i for i, f in enumerate(d['frequency'])}
     e = {'k': 'Acc', 'uid': ev['uid'], 'cls': ev['cls'], 'cfg': 0}
-    if ev['cls'] == 'Roadm':
-        c = roadm_config_contribution(ev['el'], ev['args']['from_degree'], ev['args']['degree'],
-                                      [post['frequency'][j] for _, j in pick])
+    if ev['cls'] in ('Roadm', 'Edfa', 'Multiband_amplifier'):
+        fq = [post['frequency'][j] for _, j in pick]
+        c = roadm_config_contribution(ev['el'], ev['args']['from_degree'], ev['args']['degree'], fq) \
+            if ev['cls'] == 'Roadm' else amplifier_config_contribution(ev['el'], fq)
         if c is not None:
             e.update({'cfg': 1, 'pmdCfg': [fs2(x) for x in c['pmd']], 'pdlCfg': [mdb2(x) for x in c['pdl']]})
     ip = [i for i, _ in pick]
@@ -299,6 +300,20 @@ def roadm_config_contribution(el, from_degree, degree, freqs):
         for key, name, fallback in (('pmd', 'roadm-pmd', el.params.pmd), ('pdl', 'roadm-pdl', el.params.pdl)):
             v = item.get(name)
             out[key].append(fallback if v is None else v)
+    return out
+
+
+def amplifier_config_contribution(el, freqs):
+    """PMD (s) and PDL (dB) the CONFIGURATION gives an amplifier crossing, per channel: the type's pmd / pdl; for a
+    multiband amplifier those of the member amplifier whose band holds the channel"""
+    members = list(el.amplifiers.values()) if hasattr(el, 'amplifiers') else [el]
+    out = {'pmd': [], 'pdl': []}
+    for f in freqs:
+        m = next((a for a in members if a.params.bands[0]['f_min'] <= f <= a.params.bands[0]['f_max']), None)
+        if m is None:
+            return None
+        out['pmd'].append(m.params.pmd)
+        out['pdl'].append(m.params.pdl)
     return out
 
 
@@ -413,15 +428,21 @@ RAMAN_SIM = {'raman_params': {'flag': True, 'method': 'perturbative', 'order': 2
              'nli_params': {'method': 'gn_model_analytic'}}
 
 
-def load_designed(topology, eqpt, spectrum=None, eqpt_dir=EX):
+def load_designed(topology, eqpt, spectrum=None, eqpt_dir=EX, topology_json=None):
     """(equipment, designed network, request to propagate, {amplifier uid: set gain})"""
     from gnpy.tools.json_io import load_equipments_and_configs, load_network, network_from_json, load_json, \
         load_initial_spectrum
     from gnpy.tools.worker_utils import designed_network
     from gnpy.core.elements import Edfa, Multiband_amplifier
-    eq = load_equipments_and_configs(eqpt_dir / eqpt, [], [])
-    tpath = EX / topology if (EX / topology).exists() else TD / topology
-    if topology == 'fused_roadm_example_network.json':
+    if isinstance(eqpt, dict):                           # an equipment document built by the check
+        from gnpy.tools.json_io import _equipment_from_json, DEFAULT_EXTRA_CONFIG
+        eq = _equipment_from_json(copy.deepcopy(eqpt), DEFAULT_EXTRA_CONFIG)
+    else:
+        eq = load_equipments_and_configs(eqpt_dir / eqpt, [], [])
+    tpath = None if topology_json is not None else EX / topology if (EX / topology).exists() else TD / topology
+    if topology_json is not None:
+        net = network_from_json(copy.deepcopy(topology_json), eq)
+    elif topology == 'fused_roadm_example_network.json':
         # this shipped file does not pass the YANG validation of load_network (a 'loss' parameter on a Roadm
         # element); that is a document-level matter (C18), here the legacy reader is used directly
         net = network_from_json(load_json(tpath), eq)
